@@ -70,10 +70,11 @@ def fixed_randomness(U: Universe, a_int=None):
 
 class Scn:
     def __init__(self, family, transport, cfg=0, acc=None, m2=(), m4=(), m6=(), honest=False, detail="", with_auth=True,
-                 srp=None, pre=()):
+                 srp=None, pre=(), ios_id=None):
         self.family, self.transport, self.cfg, self.acc = family, transport, cfg, acc or {}
         self.pre = list(pre)           # complete pairings run first, in the same process (setup sequences)
         self.srp = srp                 # (client secret a, server secret b) pinned by the directed search, or None
+        self.ios_id = ios_id           # controller pairing identifier override (length sweeps)
         self.m2, self.m4, self.m6 = list(m2), list(m4), list(m6)
         self.honest, self.detail, self.with_auth = honest, detail, with_auth
 
@@ -99,6 +100,8 @@ def new_state(s: Scn) -> State:
     st = State()
     st.U = U = Universe("c03")
     code, salt, acc_id, ios_id = CFGS[s.cfg]
+    if s.ios_id is not None:
+        ios_id = s.ios_id
     st.code, st.ios_id = code, ios_id
     a = dict(code=code, salt=salt, b=SRP_B, acc_id=acc_id, ltsk=ACC_LTSK, lenient=False)
     a.update(s.acc)
@@ -915,6 +918,39 @@ def gen_scenarios(tier, rnd, lz=None):
                     M6.append(("m6:sub:raw:flipbit", [sub(d_rawflip(i, bit), "ptflip")], f"pt{i}bit{bit}"))
         for it in M6:
             S.append(Scn(it[0], tr, 0, m6=it[1], detail=it[2] if len(it) > 2 else "+".join(o[2] for o in it[1])))
+        # the identifier SENT in M6 differs from the one the signature covers (the signature stays over the
+        # accessory's real id): padding, case, Unicode normal forms, prefixes / suffixes
+        import unicodedata
+        for cfg in (0, 1):
+            real = CFGS[cfg][2]
+            text = real.decode()
+            var = {"nul-terminated": real + b"\x00", "nul-nul": real + b"\x00\x00", "leading-nul": b"\x00" + real,
+                   "trailing-space": real + b" ", "leading-space": b" " + real, "trailing-newline": real + b"\n",
+                   "trailing-crlf": real + b"\r\n", "trailing-tab": real + b"\t", "lower": text.lower().encode(),
+                   "upper": text.upper().encode(), "swapcase": text.swapcase().encode(), "prefix": real[:-1],
+                   "suffix": real[1:], "extended": real + b"0", "doubled": real + real,
+                   "trailing-nbsp": real + "\u00a0".encode(), "bom": "\ufeff".encode() + real}
+            for form in ("NFC", "NFD", "NFKC", "NFKD"):
+                var["unicode-" + form] = unicodedata.normalize(form, text).encode()
+            for name, sent in sorted(var.items()):
+                if sent != real:
+                    S.append(Scn("m6:sub:id:sent-differs-from-signed", tr, cfg, detail=f"cfg{cfg}:{name}",
+                                 m6=[sub(d_items(l_set(T_ID, const_v(sent))), name)]))
+            # and the converse: the accessory signs a padded identifier but sends the bare one
+            def signed_over(padded):
+                def over(ctx, v):
+                    U, acc = ctx.U, ctx.acc
+                    return U.sign(acc.ltsk, U.hkdf(acc.K, lit(R.L_PSA_SALT), lit(R.L_PSA_INFO)) + lit(padded) + U.edpub(acc.ltsk))
+                return over
+            for name, padded in (("nul-terminated", real + b"\x00"), ("trailing-space", real + b" "), ("lower", text.lower().encode())):
+                if padded != real:
+                    S.append(Scn("m6:sub:id:signed-differs-from-sent", tr, cfg, detail=f"cfg{cfg}:{name}",
+                                 m6=[sub(d_items(l_set(T_SIG, signed_over(padded))), name)]))
+        # the controller's own identifier at the lengths that put its M5 items on the TLV8 fragment boundaries
+        # (Identifier item 254/255/256 bytes; EncryptedData item 254/255/256/510 bytes): the reference accessory's
+        # strict TLV8 parser judges M3 / M5
+        for L in (136, 137, 138, 254, 255, 256, 390):
+            S.append(Scn("honest:controller-id-length", tr, 0, honest=True, ios_id=(b"0123456789abcdef" * 25)[:L], detail=f"len{L}"))
         # identifier bit flips (validly re-signed would be accepted; here the signature stays) on another identity set
         for i in range(len(CFGS[1][2])):
             S.append(Scn("m6:sub:id:flipbit", tr, 1, m6=[sub(d_items(l_set(T_ID, flip_v(i, 0))), "idflip")], detail=f"id{i}"))
